@@ -1467,7 +1467,9 @@ class _minmax(object):
                     else:
                         cnst = _vecmin(cnst,f)
 
-                elif type(f) is variable or type(f) is _function:
+                elif type(f) is variable or (type(f) is _function and 
+                    ((f._isconvex() and self._ismax) or 
+                    (f._isconcave() and not self._ismax))):
                     self._flist += [+f]
 
                 else:
@@ -1649,6 +1651,8 @@ def max(*s):
         except: 
             # maybe s[0] is a list or tuple of variables, functions
             # and constants
+            if len(s) != 1 or type(s[0]) not in (list, tuple):
+                raise NotImplementedError
             try: return max(*s[0])
             except: raise NotImplementedError
 
@@ -1688,6 +1692,8 @@ def min(*s):
         except:
             # maybe s[0] is a list or tuple of variables, functions
             # and constants
+            if len(s) != 1 or type(s[0]) not in (list, tuple):
+                raise NotImplementedError
             try: return min(*s[0])
             except: raise NotImplementedError
 
